@@ -375,6 +375,14 @@ func (s *Specs) loadSpecFile(w *World, path string, pkg *packages.Package, trust
 				cur.Trusted = true
 			}
 			s.Contracts[key] = cur
+		case "functype":
+			// contract of calls through values of a named function type
+			if pkg == nil {
+				return fail(l, "no package in scope")
+			}
+			key := "functype " + qualifyTypeName(rest, pkg, w)
+			cur = &Contract{Key: key, Pkg: pkg, Loops: map[int]*LoopSpec{}, File: path, Line: l.line, RecvName: "fn", Closures: map[int][]GhostUpdate{}}
+			s.Contracts[key] = cur
 		case "property":
 			if cur == nil {
 				return fail(l, "property outside contract")
